@@ -15,6 +15,26 @@
 //!   (e) decoding is a pure function of the bytes: BG4-LZ4 chunks whose data block is intact but whose LZ4 end mark is damaged are
 //!       given to every decoder and validator, and after each of these - and after every validator run on a mutated object - a
 //!       known-good BG4-LZ4 chunk must decode to its exact bytes on the same thread (sync / async single-chunk decoder, range reader).
+//!   (f) every `*_to_writer` entry point (sync / async single chunk, sync / async / stream multi-chunk) with a writer that fails or
+//!       answers Ok(0) at its first / a middle / its last write call: Err, never Ok, never a panic; with a good writer the returned
+//!       (stored bytes consumed, boundaries) are right;
+//!   (g) `parse_chunk_header` / sync + async `deserialize_chunk_header` on version x scheme byte 0..=255 x stored / unpacked lengths at
+//!       and around the limits: accepted exactly within the format limits; hand-made LZ4 frames of one-byte stored blocks whose stored
+//!       form is longer than the chunk (within / beyond 2 x maximum chunk size), unpacked length maximum / maximum + 1;
+//!   (h) invalid chunk ranges (start == end, start > end, end > n, u32::MAX) through every range accessor: Err, no panic;
+//!   (i) `generate_chunk_range_hash` / `range_hash_from_chunks` == blake3 keyed with the published verification key over the
+//!       concatenated chunk hashes, for every range checked in (b);
+//!   (k) `serialize_given_info` footers with offsets at the u32 boundaries (byte layout == own layout writer, accessors do not
+//!       overflow), incomplete info structs (every accessor answers Err);
+//!   (l) the same chunk section under a V0 footer through both validators (seekable: footer without unpacked offsets; streaming:
+//!       builds a new footer, go_back_bytes = 8), with footers contradicting the chunk data; bytes after the xorb, a second
+//!       footer, bytes between chunk section and footer;
+//!   (m) C06 text forms: hex / base64 / Display / serde forms against own encoders, round trips, refusal of every malformed
+//!       string class (an accepted string must re-encode to itself), `from_slice`, `hmac`, the two keyed hash functions against
+//!       blake3 with the published keys;
+//!   (n) every public byte-grouping split / regroup variant against the definition (lengths 0..=70 and larger), the slice / reader
+//!       API of every scheme;
+//!   (p) `LocalClient::put` / `get` / `exists`: the stored file decodes by the format rules, both validators accept it.
 //! Prints `WITNESS ...` and exits 1 on the first violation.
 use std::io::{Cursor, Read};
 use std::panic::{catch_unwind, AssertUnwindSafe};
@@ -664,7 +684,7 @@ fn validate_both(rt: &tokio::runtime::Runtime, ctx: &str, bytes: &[u8], h: &Merk
                 Some(f) => (None, (bytes.len() - f).saturating_sub(4) as u32),
                 None => (Some(0usize), 0u32),
             };
-            if (go_back, cas.info_length) != want {
+            if (go_back, cas.info_length) != want && expect_stream != Expect::Reject {
                 witness(format!("{ctx}: the streaming validator accepts the object with go_back_bytes {go_back:?} and info_length {}, documented are {:?} and {}", cas.info_length, want.0, want.1));
             }
             judge("the streaming validator validate_cas_object_from_async_read", Some(cas), expect_stream, None)
@@ -946,6 +966,35 @@ fn main() {
                 let ctx = format!("hand-built xorb of 3 stored chunks, chunk #{bad_at} has stored length {clen} but unpacked length {ulen} (footer consistent with the headers)");
                 validate_both(&rt, &ctx, &forged, &t.root, Expect::Sound, Expect::Sound);
                 validate_both(&rt, &format!("{ctx}, sent without footer"), &forged[..body_len], &t.root, Expect::Sound, Expect::Sound);
+                // the decoders on the same chunk section: the section does not decode by the format rules (a stored chunk's two
+                // lengths differ), so none may answer Ok for the whole section, and a single-chunk decoder must fail on the bad chunk
+                let sec = &forged[..body_len];
+                if walk(sec).is_ok() {
+                    println!("infrastructure: the walker decodes {ctx}");
+                    std::process::exit(2);
+                }
+                let start = if bad_at == 0 { 0 } else { bounds[bad_at - 1] as usize };
+                let multi = [
+                    ("sync deserialize_chunks", guarded(&ctx, || deserialize_chunks(&mut Cursor::new(sec))).map_err(|e| e.to_string())),
+                    ("async deserialize_chunks_from_async_read", guarded(&ctx, || rt.block_on(async { let mut r: &[u8] = sec; deserialize_chunks_from_async_read(&mut r).await })).map_err(|e| e.to_string())),
+                ];
+                for (name, r) in multi {
+                    // ("no further chunk" after the chunks before the bad one is the known answer for a frame that ends early)
+                    if let Ok((d, idx)) = r {
+                        if idx.len() > bad_at + 1 || d.len() != *idx.last().unwrap() as usize {
+                            witness(format!("{ctx}: {name} returns Ok with boundaries {idx:?} and {} bytes", d.len()));
+                        }
+                    }
+                }
+                let single = [
+                    ("sync deserialize_chunk", guarded(&ctx, || deserialize_chunk(&mut Cursor::new(&sec[start..]))).map(|r| (r.0.len(), r.1, r.2)).map_err(|e| e.to_string())),
+                    ("async deserialize_chunk", guarded(&ctx, || rt.block_on(async { let mut r: &[u8] = &sec[start..]; deserialize_chunk_async(&mut r).await })).map(|r| (r.0.len(), r.1, r.2)).map_err(|e| e.to_string())),
+                ];
+                for (name, r) in single {
+                    if let Ok(x) = r {
+                        witness(format!("{ctx}: {name} positioned at the bad chunk returns Ok({x:?})"));
+                    }
+                }
             }
         }
     }
@@ -1036,6 +1085,21 @@ fn check_writer_variants(rt: &tokio::runtime::Runtime, ctx: &str, chunks: &[Vec<
             rt.block_on(async { deserialize_chunks_to_writer_from_stream(futures::stream::iter(pieces), w).await }).map_err(|e| e.to_string())
         })),
     ];
+    // the producer side: serialize_chunk into a writer that fails at its first / a later write call
+    for (k, c) in chunks.iter().enumerate().take(3) {
+        let mut good = ScriptedWriter { out: vec![], calls: 0, fail_at: None, zero: false };
+        let _ = serialize_chunk(c, &mut good, None);
+        for at in [0usize, good.calls - 1] {
+            for zero in [false, true] {
+                let mut w = ScriptedWriter { out: vec![], calls: 0, fail_at: Some(at), zero };
+                if let Ok(n) = guarded(&format!("{ctx}: serialize_chunk of chunk {k} into a failing writer"), || serialize_chunk(c, &mut w, None)) {
+                    if !c.is_empty() || at < good.calls - 1 {
+                        witness(format!("{ctx}: serialize_chunk of chunk {k} returns Ok({n}) although the writer {} at write call #{at} of {} (it holds {} bytes)", if zero { "answers Ok(0)" } else { "fails" }, good.calls, w.out.len()));
+                    }
+                }
+            }
+        }
+    }
     for (name, single, f) in &entry {
         let (want_data, want_ret): (&[u8], (usize, Vec<u32>)) = if *single { (&chunks[0][..], (stored[0], vec![chunks[0].len() as u32])) } else { (&data[..], (buf.len(), want_idx.clone())) };
         let mut good = ScriptedWriter { out: vec![], calls: 0, fail_at: None, zero: false };
@@ -1392,9 +1456,10 @@ fn check_synthetic_footers() {
             witness(format!("{ctx}: {f} returns Ok"));
         }
     }
-    // opt-in probe (not part of C07 / C08 as stated: these accessors are reached only through a footer that was PARSED but not
-    // VALIDATED): footers that CasObject::deserialize accepts and on which the length accessors panic
-    if std::env::var("C07_PROBE_UNVALIDATED_FOOTER").is_ok() {
+    // opt-in probes C07_PROBE_UNVALIDATED_FOOTER=1 / =2 (not part of C07 / C08 as stated: these accessors are reached only through a
+    // footer that was PARSED but not VALIDATED): footers that CasObject::deserialize accepts and on which the length accessors panic
+    let probe = std::env::var("C07_PROBE_UNVALIDATED_FOOTER").unwrap_or_default();
+    if probe == "1" {
         // (1) V0 footer (no unpacked offsets): uncompressed_range_length indexes the empty table
         let mut file = v0_layout(&cashash, &hs, &[10, 20, 30]);
         let il = file.len() as u32;
@@ -1403,6 +1468,8 @@ fn check_synthetic_footers() {
         let ctx = "V0 footer of 3 chunks parsed by CasObject::deserialize (boundaries_version 0, no unpacked offsets)";
         let _ = guarded(&format!("{ctx}: uncompressed_chunk_length(0)"), || cas.uncompressed_chunk_length(0).is_ok());
         let _ = guarded(&format!("{ctx}: uncompressed_range_length(0, 1)"), || cas.uncompressed_range_length(0, 1).is_ok());
+    }
+    if probe == "2" {
         // (2) V1 footer with descending unpacked offsets: the subtraction overflows
         let mut file = v1_layout(&cashash, &hs, &[10, 20, 30], &[6, 4, 2]);
         let il = file.len() as u32;
@@ -1816,6 +1883,10 @@ fn check_local_client(rt_local: &tokio::runtime::Runtime, lists: &[(String, Vec<
             Err(_) => {},
             Ok(d) => witness(format!("{ctx}: get of a hash that was never put returns {} bytes", d.len())),
         }
+    }
+    if stored < 10 {
+        println!("infrastructure: only {stored} lists were put into the LocalClient");
+        std::process::exit(2);
     }
     match guarded("LocalClient::get_all_entries", || client.get_all_entries()) {
         Ok(e) if e.len() == stored => {},
